@@ -153,6 +153,21 @@ func newDriver(order string) driver {
 			return "a%20b" + itoa(k)
 		}
 		return &drv[string]{m: skiplist.New[string, int](ord.String), key: sk, name: sk, lt: func(a, b int) bool { return sk(a) < sk(b) }}
+	case "reent":
+		// a trait that consults the list it orders (ranks or aliases kept in the same map are looked up while two keys
+		// are compared). It is the natural order of int whatever the look-up returns; Get is a reader and may be
+		// called from anywhere, also from inside a Put or a Remove of the same list.
+		var m maplike.MapLike[int, int]
+		busy := false
+		m = skiplist.New[int, int](ord.From[int](func(a, b int) ord.Ordering {
+			if m != nil && !busy {
+				busy = true
+				m.Get((a*31 + b*17 + 5) % 71)
+				busy = false
+			}
+			return cmpInt(a, b)
+		}))
+		return &drv[int]{m: m, key: id, name: itoa, lt: func(a, b int) bool { return a < b }}
 	case "ptr":
 		// keys are pointers to records ordered by a field: the trait dereferences its arguments, as traits over
 		// pointer keys do; it is only ever given keys that were put or asked for
@@ -404,7 +419,7 @@ func TestRun(t *testing.T) {
 		return // under the race detector only the owners family runs: everything else is single-goroutine
 	}
 	bigCases(t)
-	orders := []string{"int", "rev", "str", "mod", "ptr", "iface", "pct", "f64", "ibytes"}
+	orders := []string{"int", "rev", "str", "mod", "ptr", "iface", "pct", "f64", "ibytes", "reent"}
 	// ---- exhaustive: all histories over 3 keys
 	depth := common.Pick(5, 6)
 	hseeds := common.Pick(6, 20)
